@@ -279,7 +279,13 @@ func c14FieldSQL(toks []string, fieldIdx int) (expr string, multi bool) {
 	}
 	var over []string
 	if toks[1] != "-" {
-		over = append(over, "PARTITION BY "+strings.Join(c14ColList(toks[1], c14KeyCols), ", "))
+		pcols := c14ColList(toks[1], c14KeyCols)
+		if c14Style == "bq" { // the partition columns as back-quoted identifiers
+			for i := range pcols {
+				pcols[i] = "`" + pcols[i] + "`"
+			}
+		}
+		over = append(over, "PARTITION BY "+strings.Join(pcols, ", "))
 	}
 	if toks[2] != "-" {
 		over = append(over, "WHEN "+c14PredSQL(toks[2]))
@@ -721,6 +727,9 @@ func (c14) Gen(rng *rand.Rand, tier string, idx int) Case {
 	case k == 1 && !hasFanOut:
 		c.Cfg = append(c.Cfg, []string{"colstyle", "qual"})
 		c.Stat = append(c.Stat, "colstyle-qualified-values")
+	case k == 2:
+		c.Cfg = append(c.Cfg, []string{"colstyle", "bq"})
+		c.Stat = append(c.Stat, "colstyle-backquoted-keys")
 	}
 	c.Cfg = append(c.Cfg, []string{"sql", hx(c14Build(c.Cfg).sql)})
 	// partitions: 2–5 key tuples, interleaved at random
